@@ -215,7 +215,12 @@ func rootImportance(req M) map[string]float64 {
 		}
 		vals[asS(asM(a)["id"])] = m
 	}
-	w := map[string]float64{"c1": 1, "c2": 2, "c3": 3}
+	w := map[string]float64{}
+	for _, c := range critIDs(3) {
+		if x, ok := rootWeight(req, c); ok {
+			w[c] = x
+		}
+	}
 	imp := map[string]float64{}
 	switch method {
 	case "weightedSum":
